@@ -113,11 +113,51 @@ func (f flatFataler) Fatalf(format string, args ...any) {
 	f.t.Fatalf("%d repetitions of\n%s\n%s", f.k, f.one, msg)
 }
 
+// oddities: programs in which a contextual keyword is an ordinary identifier, or a line break decides the meaning: what
+// the printer writes for them must not read as the keyword form. They join the repository literals as mutation seeds.
+var oddities = []string{
+	"for(async\nof b);", "for((async) of b);", "for(async\nin b);", "for(async in b);", "for(async;;);", "async\n(x)", "async\nfunction f(){}", "(async)(x)", "async\nx=>x", "x = {async\nf(){}}",
+	"for((let) in a);", "for((let).x of y);", "for(let\nin a);", "for((let)[0];;);", "(let)[0]", "let\nlet", "if(a)\nlet\nx", "(let)\n[a]=1", "let\nyield", "(let[0])", "x = let", "let in x", "for(let of;;);",
+	"yield\n*2", "return_\nx", "a\n++b", "x\n/re/g", "a = b\n/c/d", "a\n(b)", "a\n[b]", "a++\n(b)", "x = y => {}\n(z)", "x = async y => {}\n[z]", "++a ** 2", "(-a) ** 2", "(a, b) => ({}).x", "(a) => ({})",
+	"of = of\nof", "for(of of of);", "for(var of of of);", "get\nset", "x = {get\n[a](){}}", "static\nx", "class A{static\nstatic(){}}", "class A{'constructor'(){}}", "await\nx", "(await)", "yield\n", "x = {await, yield, async, let, of}",
+	"a = 1 .toString()", "a = 1..toString()", "a = 1_0 .b", "a = 0x1.b", "a = - -b", "a = + +b", "a = - --b", "a = +(+b)", "a = b-- - --c", "a = b++ + ++c", "a = typeof typeof b", "a = !(!b)", "new (a())", "new (a.b())()", "new a().b", "(new a).b", "new (import(a))",
+	"a = b ? (c, d) : e", "a = (b, c)", "for((a in b);;);", "for(var a = (b in c);;);", "for(a = (x => y in z);;);", "x = (function(){}).name", "x = (class{}).name", "({}).x", "({a} = b)", "[a] = b", "(function(){})()", "(class{})", "(() => {})()", "`${{}}`",
+}
+
+func corpusWithOddities() []string {
+	return append(append([]string(nil), gen.Corpus("js")...), oddities...)
+}
+
+// fixed defects, replayed without the library
+func TestRegress_RoundTrip(t *testing.T) {
+	for _, src := range []string{"for(async\nof b);", "a++\n(b)", "x = y => {}\n(z)", "++a ** 2"} {
+		for _, o := range []js.Options{{}, {WhileToFor: true}, {Inline: true}, {WhileToFor: true, Inline: true}} {
+			ast, err := js.Parse(parse.NewInputString(src), o)
+			if err != nil {
+				t.Errorf("%q rejected: %v", src, err)
+				continue
+			}
+			roundTrip(t, src, o, ast)
+		}
+	}
+	// every oddity that is accepted must round-trip as it stands
+	for _, src := range oddities {
+		for _, o := range []js.Options{{}, {WhileToFor: true}, {Inline: true}, {WhileToFor: true, Inline: true}} {
+			if ast, err := js.Parse(parse.NewInputString(src), o); err == nil {
+				roundTrip(t, src, o, ast)
+			}
+		}
+	}
+}
+
 func TestProp_Corpus(t *testing.T) {
 	ev.Describe("corpus", "string literals of the repository's js tests (read from /repo at run time) with 0-3 mutations (truncation, splice, duplication, deletion, fragment insertion, byte flip; invalid UTF-8 replaced) that Parse still accepts, under every Options value; oracle as for generated; non-trivial = accepted program of >= 10 bytes; class accepted/rejected")
 	ev.Check(t, 8000, func(t *rapid.T) {
-		c := gen.Corpus("js")
+		c := corpusWithOddities()
 		src := gen.Mutate(t, rapid.SampledFrom(c).Draw(t, "corpus"), c, gen.Frags["js"])
+		if rapid.IntRange(0, 9).Draw(t, "oddity") == 0 {
+			src = gen.Mutate(t, rapid.SampledFrom(oddities).Draw(t, "odd"), c, gen.Frags["js"])
+		}
 		if !utf8.ValidString(src) {
 			src = strings.ToValidUTF8(src, "?")
 		}
